@@ -421,6 +421,33 @@ func TestC17(t *testing.T) {
 			}
 		}
 	}
+	// thorough: additionally every sequence of length 3 over one representative
+	// request per (kind, transport) that mentions never-seen names where possible
+	len3 := 0
+	if ev.Thorough() {
+		var reps []int
+		seenKT := map[string]bool{}
+		for pass := 0; pass < 2; pass++ {
+			for i, rq := range reqs {
+				kt := rq.Kind + "/" + rq.Transport
+				if seenKT[kt] || (pass == 0 && !strings.Contains(rq.Name, "never-seen")) {
+					continue
+				}
+				seenKT[kt] = true
+				reps = append(reps, i)
+			}
+		}
+		for _, st := range c17States {
+			for _, a := range reps {
+				for _, b := range reps {
+					for _, c := range reps {
+						jobs = append(jobs, job{st, []int{a, b, c}})
+						len3++
+					}
+				}
+			}
+		}
+	}
 	deadline := ev.Deadline(200, 1500)
 	var timedOut atomic.Bool
 	type wstate struct {
